@@ -93,7 +93,18 @@ type Theorem struct {
 	Line  int
 }
 
+type CallRule struct {
+	Label   string
+	Props   []string
+	Callee  string   // function whose callers are restricted
+	Callers []string // the only in-module functions allowed to call it
+	File    string
+	Line    int
+}
+
 type Contracts struct {
+	CallRules []*CallRule
+	TypeInv   map[string]string   // struct type name -> invariant over _v, assumed for every value read from memory or returned by foreign code
 	Immutable map[string][]string // struct type name -> functions allowed to write it (constructors)
 	Theorems []*Theorem
 	Macros  map[string]*Macro
@@ -106,7 +117,7 @@ type Contracts struct {
 
 var clauseKinds = map[string]bool{"requires": true, "ensures": true, "invariant": true, "returns": true,
 	"fswrite": true, "assume": true, "assert": true, "params": true, "pure": true, "replay": true, "sweep": true,
-	"decreases": true, "opt": true, "frame": true, "impure": true, "guide": true, "at-call": true, "ghost": true, "sets": true, "slice-invariant": true, "watch": true, "ensures-bounded": true, "modifies": true, "each": true, "ensures-local": true, "assume-at-call": true, "closure-invariant": true, "defines": true, "tolerates": true, "fresh-invariant": true, "havocs": true, "fsread": true}
+	"decreases": true, "opt": true, "frame": true, "impure": true, "guide": true, "at-call": true, "ghost": true, "sets": true, "slice-invariant": true, "watch": true, "ensures-bounded": true, "modifies": true, "each": true, "ensures-local": true, "assume-at-call": true, "closure-invariant": true, "defines": true, "tolerates": true, "fresh-invariant": true, "frame-at-call": true, "at-panic": true, "havocs": true, "fsread": true}
 
 var theoremRe = regexp.MustCompile(`^(\S+)\s*\(([^)]*)\)\s*:\s*(.*)$`)
 var lemmaPatRe = regexp.MustCompile(`^([A-Za-z_][A-Za-z0-9_.]*)\(([^)]*)\)\s*`)
@@ -271,6 +282,32 @@ func (cs *Contracts) parseContractFile(file string, repo bool, pkgPath string) e
 			mc := &Macro{Params: ps, Body: body}
 			cs.Macros[m[1]] = mc
 			last = &mc.Body
+		case word == "callgraph":
+			cur, curLemma = nil, nil
+			// callgraph LABEL: only F, G call H
+			label, body := splitLabel(rest)
+			m := regexp.MustCompile(`^only (.*) calls? (.*)$`).FindStringSubmatch(body)
+			if m == nil {
+				return fmt.Errorf("%s:%d: bad callgraph rule", file, ln)
+			}
+			r := &CallRule{Label: label, Props: propsOf(label), Callee: strings.TrimSpace(m[2]), File: file, Line: ln}
+			for _, x := range strings.Split(m[1], ",") {
+				r.Callers = append(r.Callers, strings.TrimSpace(x))
+			}
+			cs.CallRules = append(cs.CallRules, r)
+			last = nil
+		case word == "type-invariant":
+			cur, curLemma = nil, nil
+			// type-invariant pkg.Type: expr over _v
+			i := strings.Index(rest, ":")
+			if i < 0 {
+				return fmt.Errorf("%s:%d: bad type-invariant", file, ln)
+			}
+			tn := strings.TrimSpace(rest[:i])
+			cs.TypeInv[tn] = strings.TrimSpace(rest[i+1:])
+			v := cs.TypeInv[tn]
+			_ = v
+			last = nil
 		case word == "immutable":
 			cur, curLemma = nil, nil
 			// immutable pkg.Type except f, g, h
@@ -409,7 +446,7 @@ func (cs *Contracts) parseContractFile(file string, repo bool, pkgPath string) e
 					c.Callee = rest[:i]
 					rest = strings.TrimSpace(rest[i+1:])
 				}
-				if word == "at-call" || word == "assume-at-call" || word == "tolerates" {
+				if word == "at-call" || word == "assume-at-call" || word == "tolerates" || word == "frame-at-call" {
 					// at-call CALLEE label: expr   (a0, a1, ... name the call arguments)
 					i := strings.IndexAny(rest, " \t")
 					if i < 0 {
@@ -417,6 +454,30 @@ func (cs *Contracts) parseContractFile(file string, repo bool, pkgPath string) e
 					}
 					c.Callee = rest[:i]
 					rest = strings.TrimSpace(rest[i+1:])
+					// callee names with spaces: "invoke T.M", "dynamic field T.f"
+					extra := 0
+					if c.Callee == "invoke" {
+						extra = 1
+					} else if c.Callee == "dynamic" {
+						extra = 2
+					}
+					for ; extra > 0; extra-- {
+						j := strings.IndexAny(rest, " \t")
+						if j < 0 {
+							break
+						}
+						c.Callee += " " + rest[:j]
+						rest = strings.TrimSpace(rest[j+1:])
+					}
+					if word == "frame-at-call" {
+						// frame-at-call CALLEE: lvalue, lvalue   (the call may modify exactly these, through callbacks it was handed)
+						c.Callee = strings.TrimSuffix(c.Callee, ":")
+						c.Expr = rest
+						c.Label = "frame-at-call." + c.Callee
+						cur.Clauses = append(cur.Clauses, c)
+						last = &cur.Clauses[len(cur.Clauses)-1].Expr
+						continue
+					}
 					if word == "tolerates" {
 						// tolerates CALLEE#N: condition over _err
 						c.Callee = strings.TrimSuffix(c.Callee, ":")
@@ -477,7 +538,7 @@ func splitTop(s string, sep byte) []string {
 }
 
 func loadContracts(repo string, libDir string, pkgDirs map[string]string) (*Contracts, error) {
-	cs := &Contracts{Funcs: map[string]*FuncContract{}, Closed: map[string][]string{}, Macros: map[string]*Macro{}, Immutable: map[string][]string{}}
+	cs := &Contracts{Funcs: map[string]*FuncContract{}, Closed: map[string][]string{}, Macros: map[string]*Macro{}, Immutable: map[string][]string{}, TypeInv: map[string]string{}}
 	libs, _ := filepath.Glob(filepath.Join(libDir, "*.contracts"))
 	for _, l := range libs {
 		if err := cs.parseContractFile(l, false, ""); err != nil {
